@@ -5,12 +5,14 @@ namespace IpcHub.Flv
 def genCfg : Cfg :=
   { clampOlder := IpcHub.Gen.writerClampOlder,
     sentinelInit := IpcHub.Gen.writerSentinelInit,
-    gateParamSets := IpcHub.Gen.muxGateParamSets }
+    gateParamSets := IpcHub.Gen.muxGateParamSets,
+    stampNow := IpcHub.Gen.cacheStampNow }
 
 /-- the tree as pinned (before the C08 fixes): wrapping rebase, sentinel first-tag test, sequence
-    headers built at the first frame of any kind -/
-def pinnedCfg : Cfg := { clampOlder := false, sentinelInit := true, gateParamSets := false }
+    headers built at the first frame of any kind, headers replayed with timestamp 0 without a cached
+    GOP -/
+def pinnedCfg : Cfg := { clampOlder := false, sentinelInit := true, gateParamSets := false, stampNow := false }
 
 /-- the repaired behaviour -/
-def fixedCfg : Cfg := { clampOlder := true, sentinelInit := false, gateParamSets := true }
+def fixedCfg : Cfg := { clampOlder := true, sentinelInit := false, gateParamSets := true, stampNow := true }
 end IpcHub.Flv
